@@ -34,7 +34,7 @@ LEVEL_TEXT = (
     "exactly that node, CWD enters it and PWD's reply decodes to its path, MLSD of the parent lists exactly one entry named n whose "
     "line decodes to n, MLST asks the backend about exactly it, STOR/RETR below it round-trip the bytes, DELE, RNFR/RNTO to a free "
     "sibling and RMD act on exactly it; built from C08_resolve_to_str, C08_event_of_client_line and the per-command theorems "
-    "C08_nt_cwd_pwd, C08_nt_listing, C08_nt_stor_retr, C08_nt_stor_sibling_untouched (an upload leaves every other name of the directory as it was), C08_nt_rename (from every ready world), C08_session_table_is_reference "
+    "C08_nt_cwd_pwd, C08_nt_listing, C08_nt_stor_retr, C08_nt_stor_sibling_untouched (an upload leaves every other name of the directory as it was), C08_nt_rename, C08_nt_rename_out / C08_nt_rename_into (source and target in different directories, any spelling, any working directory) (from every ready world), C08_session_table_is_reference "
     "(re-checked each run). Codec theorems for every valid name: C08_cmd_path_roundtrip, C08_cmd_path_resolved, "
     "C08_mlsd_name_roundtrip, C08_build_mlsx_shape, C08_mlst_name_roundtrip, C08_pwd_roundtrip (full strength, quotes anywhere), "
     "C08_pwd_roundtrip_valid, C08_pwd_line_roundtrip, C08_pwd_trailing_text_ignored. The LIST fallback is carved out exactly "
@@ -46,7 +46,7 @@ LEVEL_NOTE = (
     "Trusted: Coq kernel, extraction cross-checked with vm_compute, harness. Assumed: the utf-8 codec round-trips and commutes with "
     "line splitting (C06). Modelled not verified: CPython str methods (str.replace with a one-character pattern as flat_map), "
     "pathlib (C02), the session model Model/Session.v itself (tied to the server by C05's conformance and, for the names of this "
-    "property, by the session-model stream here). Outside the composed theorem: RNTO into another directory, STOR onto an existing "
+    "property, by the session-model stream here). Outside the composed theorem: RNTO between directories that are not parent and child, paths spelled with '..' (both validated at wire level and against the session model), STOR onto an existing "
     "file / APPE / REST offsets, permission refusals, concurrency; the symlink branch of the LIST parser and date/mode parsing (C07)."
 )
 TRUSTED = [
@@ -64,6 +64,10 @@ ATOMS = ['"', '""', " ", "  ", ";", "=", "Type=dir;", "type=file;", "->", " -> "
 SPECIAL = ['a"b', '"', '""', '"""', '"a', 'a"', '""a""', " x", "  x", "\tx", "x y", "-", "-rf", "250 ok", "250-x", "Type=dir; x", "a;b=c", "a -> b",
            "\\", "a\\b", "%41", "é́", "\U0001F600\U0001F601", "...", ".x", "..x", "x.", " -> ", "= ;", "226", "1 2 3", " x", "a b",
            "\x85x", "x\x85y", "a\x0bb", "\x1fx", "'", "a'b", "[a]", "{a}", "$(x)", "a&b", "a|b", "a<b>c", "‮x", "﻿x"]
+# whole names that are a single special character or a short shell-ish token (home, options, globs, variables, redirections)
+TOKENS = ["~", "~~", "~user", "~/", "-", "--", "*", "?", "!", "#", "$HOME", "${x}", "%", "&", "|", ">", "<", "`", "'", "\\", "{}", "[a]", ".hidden",
+          "...", "@", ":", "+", "=", ";", ",", "^", "(", ")", "$", "~x", "x~", "!!", "*.*", "-v", "CON", "0"]
+SPECIAL += [t for t in TOKENS if t not in SPECIAL]
 
 
 def valid_name(n):
@@ -585,6 +589,54 @@ async def wire_names(ctx, cases, sessions=None):
                     n_ops += 2
                     if p.tree() != _parent_tree(comps):
                         bad("nest-remove", f"tree {p.tree()!r}")
+                if nest_ok:
+                    # rename where source and target live in DIFFERENT directories, every combination of spelling (bare,
+                    # relative with a slash, with '..', absolute) and the working directory elsewhere; files and a directory
+                    dn = name
+                    do = next(x for x in (other + "d", other + "dd", other + "ddd") if x != dn)
+                    tb = next(x for x in (other, other + ".b", other + ".bb") if x not in (dn, do))
+                    here_t = lambda sub: _nest(comps[:-1], sub)
+                    cur[0] = "xmv-setup"
+                    await c.make_directory(P(dn))
+                    await c.make_directory(P(do))
+                    payloads.append(data)
+                    async with c.upload_stream(P(dn) / name) as s:
+                        await s.write(data)
+                    n_ops += 3
+                    if p.tree() != here_t({dn: {name: data}, do: {}}):
+                        bad("xmv-setup", f"tree {p.tree()!r}")
+                    moves = [
+                        # (step, cwd for the command, source as spelled, target as spelled, tree afterwards)
+                        ("xmv-relslash-to-bare", parent, P(dn) / name, P(tb), {dn: {}, do: {}, tb: data}),
+                        ("xmv-bare-to-relslash", parent, P(tb), P(do) / tb, {dn: {}, do: {tb: data}}),
+                        ("xmv-abs-to-bare", parent / dn, parent / do / tb, P(tb), {dn: {tb: data}, do: {}}),
+                        ("xmv-bare-to-dotdot", parent / dn, P(tb), P("..") / do / name, {dn: {}, do: {name: data}}),
+                        ("xmv-dotdot-to-abs", parent / dn, P("..") / do / name, parent / tb, {dn: {}, do: {}, tb: data}),
+                        ("xmv-abs-to-abs", P("/"), parent / tb, parent / dn / tb, {dn: {tb: data}, do: {}}),
+                        ("xmv-relslash-to-bare-elsewhere", parent / do, P("..") / dn / tb, P(name), {dn: {}, do: {name: data}}),
+                        ("xmv-dir-bare-to-relslash", parent, P(do), P(dn) / do, {dn: {do: {name: data}}}),
+                        ("xmv-dir-relslash-to-bare", parent, P(dn) / do, P(tb), {dn: {}, tb: {name: data}}),
+                    ]
+                    for step_name, wd, src, dst, after in moves:
+                        cur[0] = step_name
+                        await c.change_directory(wd)
+                        await c.rename(src, dst)
+                        n_ops += 2
+                        if p.tree() != here_t(after):
+                            bad(step_name, f"cwd {str(wd)!r}: rename({str(src)!r}, {str(dst)!r}) left the tree {p.tree()!r}, expected {here_t(after)!r}")
+                            break
+                        if not await c.exists(dst):
+                            bad(step_name, f"cwd {str(wd)!r}: after rename({str(src)!r}, {str(dst)!r}) MLST {str(dst)!r} says it does not exist")
+                        n_ops += 1
+                    cur[0] = "xmv-cleanup"
+                    await c.change_directory(parent)
+                    before = len(log)
+                    for x in (dn, do, tb):
+                        if await c.exists(P(x)):
+                            await c.remove(P(x))
+                    obs["listed"] += [None] * sum(1 for l, _ in log[before:] if l.split(" ", 1)[0] in ("MLSD", "LIST"))
+                    if p.tree() != _parent_tree(comps):
+                        bad("xmv-cleanup", f"tree {p.tree()!r}")
                 if sessions is not None and nest_ok:
                     sessions.append({"case": ["/".join(comps), other], "log": list(log), "payloads": list(payloads), "obs": obs,
                                      "tree": p.tree(), "cwd": str(parent)})
@@ -910,7 +962,7 @@ def stream_wire(ctx, xcheck=None):
     n = 600 if ctx.tier == "thorough" else 160
     names = [x for x in SPECIAL if valid_name(x)]
     rng.shuffle(names)
-    names = names[: n // 2] + [gen_name(rng) for _ in range(n - n // 2)]
+    names = names[: max(n // 2, len(names)) if ctx.tier == "thorough" else (3 * n) // 4] + [gen_name(rng) for _ in range(n // 4)]
     cases = []
     for i, name in enumerate(names):
         depth = 1 + i % 3
@@ -965,7 +1017,11 @@ def correspondence(ctx):
         "from inside n with MLSD and with LIST (the child carries the listed directory's own name; relative one-component listed "
         "path) and the bounded recursive walk with both, remove of the tree; a quarter of the cases at depth 2-3 repeat one name "
         "along the whole path; an exception of the implementation is reported against the operation in progress and the run goes "
-        "on with a fresh client session; (siblings, on EACH backend MemoryPathIO / PathIO / AsyncPathIO over loopback) two names "
+        "on with a fresh client session; then renames whose source and target live in DIFFERENT directories, files and a "
+        "directory, every combination of spelling (bare, relative with a slash, with '..', absolute) with the working directory "
+        "at the parent, inside the source directory, inside the target directory and at the root, tree + MLST of the target after "
+        "each; the fixed name pool also has whole names that are single special characters or short shell-ish tokens (~ ~~ ~user - "
+        "-- * ? ! # $HOME % & | > < ` ' \\ {} [a] .hidden ... @ : + = ; , ^ ( ) $ *.* -v); (siblings, on EACH backend MemoryPathIO / PathIO / AsyncPathIO over loopback) two names "
         "related by a suffix or prefix (.part .tmp ~ .bak .swp .new .old .1 -part .filepart .crdownload .lock; . ~ .# part.) in ONE "
         "directory, each uploaded / appended / downloaded / overwritten / renamed / deleted while the other exists as a file and "
         "as a directory, and names of exactly 250..255 UTF-8 bytes (1-, 2- and 4-byte code points, metacharacter heads) that the "
